@@ -215,17 +215,45 @@ func genC05Cancel(r *Rand) *Case {
 	at := r.Intn(n)
 	var stmts []*StmtProg
 	for i := 0; i < n; i++ {
-		sp := &StmtProg{Cols: []ColSpec{{Name: "a", OID: pgwire.OIDText}}}
-		if i == at && r.Bool() {
+		// 0-3 text columns (a statement without columns writes rows without fields)
+		nc := r.PickInt(1, 1, 1, 0, 2, 3)
+		sp := &StmtProg{}
+		for k := 0; k < nc; k++ {
+			sp.Cols = append(sp.Cols, ColSpec{Name: fmt.Sprintf("a%d", k), OID: pgwire.OIDText})
+		}
+		mkRow := func() Op {
+			row := make([]Val, nc)
+			for k := range row {
+				row[k] = Val{G: "string", S: fmt.Sprintf("s%d", i)}
+			}
+			return Op{K: "row", Row: row}
+		}
+		how := r.Intn(3) // 0: cancel first, 1: cancel after the completion, 2: while a value of a row is encoded
+		if i == at && how == 0 {
 			// (half of the handlers let simulated time pass right after the
 			// cancellation and only then go on writing their result)
 			sp.Ops = append(sp.Ops, Op{K: "cancel", Ms: r.PickInt(0, 0, 1, 50, 6000)})
 		}
-		for k := r.Intn(3); k > 0; k-- {
-			sp.Ops = append(sp.Ops, Op{K: "row", Row: []Val{{G: "string", S: fmt.Sprintf("s%d", i)}}})
+		rows := r.Intn(3)
+		if i == at && how == 2 && nc > 0 && rows == 0 {
+			rows = 1
+		}
+		hit := r.Intn(rows + 1)
+		for k := 0; k < rows; k++ {
+			op := mkRow()
+			if i == at && how == 2 && nc > 0 && k == hit%rows {
+				op.CancelIn = r.Range(1, nc)
+			}
+			sp.Ops = append(sp.Ops, op)
+			if r.Chance(1, 3) {
+				sp.Ops = append(sp.Ops, Op{K: "written"})
+			}
+		}
+		if r.Bool() {
+			sp.Ops = append(sp.Ops, Op{K: "written"})
 		}
 		sp.Ops = append(sp.Ops, Op{K: "complete", Tag: fmt.Sprintf("TAG %d", i)})
-		if i == at && len(sp.Ops) > 0 && sp.Ops[0].K != "cancel" {
+		if i == at && (how == 1 || (how == 2 && nc == 0)) {
 			sp.Ops = append(sp.Ops, Op{K: "cancel"})
 		}
 		stmts = append(stmts, sp)
@@ -261,7 +289,7 @@ func checkC05Cancel(x *Exec, c *Case) ([]Violation, bool) {
 				switch op.K {
 				case "complete":
 					done++
-				case "row", "cancel":
+				case "row", "cancel", "written":
 				default:
 					return viol, false
 				}
@@ -319,6 +347,29 @@ func checkC05Cancel(x *Exec, c *Case) ([]Violation, bool) {
 	}
 	if len(tags) < n && errs == 0 {
 		add("statements-skipped-silently", fmt.Sprintf("only %d of %d statements were answered and no ErrorResponse says why", len(tags), n))
+	}
+	// the result writer stays a state machine whatever the context does: a row
+	// reported as written is on the wire, a row reported as failed is not, and
+	// Written() equals the rows written by that statement so far
+	{
+		okRows, okStmt := 0, 0
+		for _, e := range cs.Events {
+			switch {
+			case e.K == "stmt":
+				okStmt = 0
+			case e.K == "op" && strings.HasSuffix(e.S, " row ok"):
+				okRows++
+				okStmt++
+			case e.K == "op" && strings.Contains(e.S, " written "):
+				var oi, w int
+				if _, err := fmt.Sscanf(e.S, "%d written %d", &oi, &w); err == nil && w != okStmt {
+					add("written-counter", fmt.Sprintf("Written() returned %d after %d successful Row call(s) of that statement", w, okStmt))
+				}
+			}
+		}
+		if d := strings.Count(pgwire.Kinds(t.Msgs), "D"); d != okRows {
+			add("row-result-disagrees-with-wire", fmt.Sprintf("%d Row call(s) returned nil but %d DataRow(s) were sent", okRows, d))
+		}
 	}
 	ran := 0
 	for _, e := range cs.EventsOf("stmt") {
@@ -678,7 +729,7 @@ func init() {
 	// ------------------------------------------------------------------ C05
 	register(&Prop{
 		ID: "C05", Level: "exploration", QuickS: 25, ThoroughS: 420,
-		Rule:       "seeded simple-query histories (1-6 Query messages, pipelined / one per quiescence point / grouped, random segmentation) whose query texts map to generated handler programs (parser error, 0/1/many statements, 0-4 typed columns, good / wrong-arity / unencodable rows, Written() reads, Complete, calls after completion, error return at any position); a share of cases cancels the session context (derived by a session middleware, as a session time limit would) while one statement of a multi-statement query runs: the cycle must still be all results in order or results of a prefix plus exactly one ErrorResponse, never a silently shortened result; variants: a statement cancels the middleware-derived session context (optionally letting simulated time pass before it goes on writing) - nothing of a query may arrive after its ReadyForQuery; E2: Server.Close pinned inside a running query of 1-3 statements - the admitted query is answered in full with one ReadyForQuery; non-trivial = at least one result-writer operation was executed and judged; distinct = distinct case content hashes",
+		Rule:       "seeded simple-query histories (1-6 Query messages, pipelined / one per quiescence point / grouped, random segmentation) whose query texts map to generated handler programs (parser error, 0/1/many statements, 0-4 typed columns, good / wrong-arity / unencodable rows, Written() reads, Complete, calls after completion, error return at any position); a fifth of the histories interleave extended-protocol messages (synced or not, failing or not) with the simple queries; a share of cases cancels the session context (derived by a session middleware, as a session time limit would) while one statement of a multi-statement query runs: the cycle must still be all results in order or results of a prefix plus exactly one ErrorResponse, never a silently shortened result, and the result writer stays a state machine under cancellation (0-3 columns; the context ends before, after or while a value of a row is being encoded: a Row call that returned nil put its DataRow on the wire, one that failed did not, Written() agrees); variants: a statement cancels the middleware-derived session context (optionally letting simulated time pass before it goes on writing) - nothing of a query may arrive after its ReadyForQuery; E2: Server.Close pinned inside a running query of 1-3 statements - the admitted query is answered in full with one ReadyForQuery; non-trivial = at least one result-writer operation was executed and judged; distinct = distinct case content hashes",
 		Components: append(append([]string{}, e1Components...), "E2 share (the variants that pin Server.Close or other connections against a running session): seeded scheduler harness/kernel.go decides every interleaving of connection goroutines and Close callers at transport operations, callbacks, hand-placed hooks and spliced synchronisation points"), Assumptions: commonAssumptions,
 		Gen: func(r *Rand, tier string) *Case {
 			if r.Chance(1, 25) {
@@ -688,7 +739,11 @@ func init() {
 				return genC05Close(r)
 			}
 			c := &Case{Server: ServerCfg{Limit: smallLimit(r)}}
-			genHistory(r, c, histOpts{decorated: r.Chance(1, 4), manyRows: true, simple: true, errs: true, abuse: true, multi: true, typedNull: false, rich: true, maxUnits: units(tier, 6), terminate: true})
+			// (a fifth of the histories put extended-protocol messages - synced or
+			// not - between the simple queries: a Query is a cycle of its own wherever it stands)
+			ext := r.Chance(1, 5)
+			genHistory(r, c, histOpts{decorated: r.Chance(1, 4), manyRows: true, simple: true, errs: true, abuse: true, multi: true, typedNull: false, rich: true, maxUnits: units(tier, 6), terminate: true,
+				extended: ext, params: ext, unknownNames: ext, closes: ext})
 			return c
 		},
 		Check: func(x *Exec, c *Case) ([]Violation, bool) {
@@ -810,7 +865,7 @@ func init() {
 	// ------------------------------------------------------------------ C09
 	register(&Prop{
 		ID: "C09", Level: "exploration", QuickS: 25, ThoroughS: 420,
-		Rule:       "seeded sessions whose statements write rows over bool/int2/int4/int8/oid/float4/float8/text/varchar/bytea/uuid/date/timestamp/timestamptz/name/bpchar/json/jsonb columns with boundary and random values (min/max, +-0, NaN, +-Inf, empty and multi-byte strings, empty and NUL-containing bytea, zero UUID, text/bytea values of 4090-70000 bytes) in the Go representations a handler would use (native values, pointers, pgtype structs, and Go strings holding the text form of int4/int8/uuid values, which only the text format can encode), text format (simple protocol) and per-column text/binary result formats (extended protocol), SQL NULL written as untyped nil, typed nil pointer or invalid pgtype value in any position; the same OID is encoded from different Go types in varying order within a connection; every DataRow is decoded by the independent codecs; variant: rows of 17-70 KB on their way out when the session's middleware-derived context ends (fault write-cancel): the wire stays a sequence of complete messages and every DataRow that arrives carries a value that was written; non-trivial = at least one DataRow was produced and decoded; distinct = distinct case content hashes",
+		Rule:       "seeded sessions whose statements write rows over bool/int2/int4/int8/oid/float4/float8/text/varchar/bytea/uuid/date/timestamp/timestamptz/name/bpchar/json/jsonb columns with boundary and random values (min/max, +-0, NaN, +-Inf, empty and multi-byte strings, empty and NUL-containing bytea, zero UUID, text/bytea values of 4090-70000 bytes) in the Go representations a handler would use (native values, pointers, pgtype structs, and Go strings holding the text form of int4/int8/uuid values, which only the text format can encode), text format (simple protocol) and per-column text/binary result formats (extended protocol), SQL NULL written as untyped nil, typed nil pointer or invalid pgtype value in any position; a sixth of the servers announce another server_version (option or configured parameter: 7.4 ... 16devel); the same OID is encoded from different Go types in varying order within a connection; every DataRow is decoded by the independent codecs; variant: rows of 17-70 KB on their way out when the session's middleware-derived context ends (fault write-cancel): the wire stays a sequence of complete messages and every DataRow that arrives carries a value that was written; non-trivial = at least one DataRow was produced and decoded; distinct = distinct case content hashes",
 		Components: e1Components, Assumptions: commonAssumptions,
 		Gen: func(r *Rand, tier string) *Case {
 			if r.Chance(1, 10) {
@@ -822,6 +877,16 @@ func init() {
 				return genC09BigRowCancel(r)
 			}
 			c := &Case{Server: ServerCfg{Limit: smallLimit(r)}}
+			if r.Chance(1, 6) {
+				// the announced server_version (option or configured parameter) is
+				// something the client is told; it never changes how a value is sent
+				v := r.Pick("9.6.24", "11.22", "8.4.1", "15.2", "16devel", "7.4", "12.0", r.Str(4))
+				if r.Bool() {
+					c.Server.Version = v
+				} else {
+					c.Server.Params = map[string]string{"server_version": v}
+				}
+			}
 			r.Large = true
 			genHistory(r, c, histOpts{manyRows: true, simple: true, extended: true, binary: true, rich: true, docs: true, typedNull: true, multi: true, abuse: r.Chance(1, 3), maxUnits: units(tier, 6)})
 			return c
